@@ -120,6 +120,30 @@ def _cases_core(rng, tier):
         bs = bytes(rng.getrandbits(8) for _ in range(rng.randint(0, 12)))
         yield "scr_parse " + hx(bs), "parse-junk"
         yield "vi_read " + hx(bs), "varint-junk"
+    # re-segmentation siblings: scripts with the SAME serialised length and the SAME outer opcodes as a given script
+    # (the four standard templates first) whose inner structure differs — one data element replaced by two pushes, by
+    # an opcode and a push, or by three pushes of the same total wire size
+    def resegment(cmds):
+        out = []
+        for k, c in enumerate(cmds):
+            if isinstance(c, bytes) and 3 <= len(c) <= 75:
+                L = len(c)
+                a = rng.randint(1, L - 2)
+                out.append(cmds[:k] + [c[:a], c[a + 1:]] + cmds[k + 1:])                       # two pushes
+                out.append(cmds[:k] + [rng.choice([0x76, 0xa9, 0x51, 0xac]), c[1:]] + cmds[k + 1:])  # opcode + push
+                out.append(cmds[:k] + [c[1:], rng.choice([0x87, 0x88, 0x00])] + cmds[k + 1:])        # push + opcode
+                if L >= 5:
+                    b = rng.randint(1, L - a - 2) if L - a - 2 >= 1 else 1
+                    out.append(cmds[:k] + [c[:a], c[a + 1:a + 1 + b], c[a + 2 + b:]] + cmds[k + 1:])
+        return [o for o in out if all(not isinstance(x, bytes) or len(x) >= 1 for x in o)]
+    h20, h32 = bytes(rng.getrandbits(8) for _ in range(20)), bytes(rng.getrandbits(8) for _ in range(32))
+    templates = [[0x76, 0xa9, h20, 0x88, 0xac], [0xa9, h20, 0x87], [0, h20], [0, h32], [0x51, bytes(33), 0x51, 0xae]]
+    for base in templates + [_rand_script(rng, 4) for _ in range(20 if tier == "quick" else 600)]:
+        for sib in resegment(base):
+            raw = _ser_indep(sib)
+            yield "scr_ser " + _cmds_str(sib), "resegmented-sibling"
+            if raw is not None:
+                yield "scr_parse " + hx(_varint_indep(len(raw)) + raw), "resegmented-parse"
     # wire-level grammar of the PARSER (not only the image of the serialiser): opcodes, direct pushes and
     # PUSHDATA1/PUSHDATA2 with ANY length field (zero, non-minimal, oversized), cut at every position while the
     # declared script length is (a) that of the complete script, (b) that of the cut script, (c) off by one
